@@ -1,0 +1,261 @@
+//go:build verif
+
+package loki
+
+// Contracts for the verification harness under /verif (comment-only file).
+
+// isUnixNanoFormat (C19, Loki envelope: the first element of a value pair must be a
+// nanosecond epoch as a decimal string): true exactly for the decimal int64 strings
+// strictly after the epoch and strictly before the current time.  strconv / time are
+// the environment: ParseInt's verdict and value, the instants time.Unix builds
+// (uf_tnano(wall, ext) = sec*10^9 + nsec, the instant in ns), the clock reading
+// (gnow: the instant Now returned; Now is called at most once) and the comparisons
+// After / Before (on instants; wall-clock comparison, as one side never carries a
+// monotonic reading).
+
+//@ func (*Plugin).isUnixNanoFormat
+//@   pure
+//@   ghost npi int = 0
+//@   ghost nnow int = 0
+//@   ghost perr bool = false
+//@   ghost nano int = 0
+//@   ghost gnow int = 0
+//@   ensures npi == 1
+//@   ensures perr ==> !result
+//@   ensures !perr ==> result == (0 < nano && nano < gnow)
+//@   callee ParseInt(s, base, bits) (v, e)
+//@     requires npi == 0 && s == ts && base == 10 && bits == 64
+//@     pure
+//@     set npi := npi + 1
+//@     set perr := !isnil(e)
+//@     set nano := v
+//@   callee Unix(sec, nsec) (t)
+//@     pure
+//@     ensures uf_tnano(t.wall, t.ext) == sec * 1000000000 + nsec
+//@   callee Now() (t)
+//@     requires nnow == 0
+//@     pure
+//@     set nnow := nnow + 1
+//@     set gnow := uf_tnano(t.wall, t.ext)
+//@   callee After(u) (r)
+//@     pure
+//@     ensures r == (uf_tnano(recv.wall, recv.ext) > uf_tnano(u.wall, u.ext))
+//@   callee Before(u) (r)
+//@     pure
+//@     ensures r == (uf_tnano(recv.wall, recv.ext) < uf_tnano(u.wall, u.ext))
+
+// parseLabels (C19, Loki envelope: the "stream" object of the one stream every batch
+// is sent under): a map made by this call, into which every configured label is
+// written once, in order, as Label -> Value of the same entry (not swapped, not
+// shifted, none skipped).  Maps are outside govc's memory model: what is stated is
+// the sequence of updates (oracle on each update, counted by a ghost; the counter is
+// advanced by a source anchor, because map updates cannot carry `set`).
+
+//@ func (*Plugin).parseLabels
+//@   pure
+//@   ghost nupd int = 0
+//@   ensures !isnil(result) && freshin(result)
+//@   ensures nupd == len(p.config.Labels)
+//@   loop 1 invariant -1 <= rangeindex && rangeindex < len(p.config.Labels) && nupd == rangeindex + 1
+//@   setat "labels[" nupd := nupd + 1
+//@   callee mapupdate:labels(k, val)
+//@     requires 0 <= rangeindex && rangeindex < len(p.config.Labels) && nupd == rangeindex + 1
+//@     requires k == p.config.Labels[rangeindex].Label && val == p.config.Labels[rangeindex].Value
+
+// getCustomHeaders: a map made by this call; the tenant header is written iff the
+// auth strategy is `tenant`, once, under the name Loki reads (X-Scope-OrgID) and
+// with the configured tenant id; nothing else is written.
+
+//@ func (*Plugin).getCustomHeaders
+//@   pure
+//@   ghost nupd int = 0
+//@   ensures !isnil(result) && freshin(result)
+//@   ensures nupd == ite(p.config.Auth.Strategy_ == StrategyTenant, 1, 0)
+//@   setat "headers[" nupd := nupd + 1
+//@   callee mapupdate:headers(k, val)
+//@     requires p.config.Auth.Strategy_ == StrategyTenant && nupd == 1
+//@     requires k == "X-Scope-OrgID" && val == p.config.Auth.TenantID
+
+// send (C19, Loki envelope): root carries the batch as the array "data", one node per
+// deliverable event, in batch order (built by out).  For every message, in order, one
+// value line is appended: the timestamp and the message text are read from THAT
+// message's configured fields, the rest of THAT message is encoded once (nenc: the
+// k-th encoding is of messages[k]), and exactly one line goes into values
+// (len(values) == number of messages walked).  What is marshalled is one stream under
+// the plugin's labels with exactly these values; what is posted (once, as
+// application/json) is exactly the marshalled bytes; no request is made after a failed
+// Marshal or once a timestamp has been rejected (Loki refuses the whole push).  The
+// result is nil iff the one request was answered 204 (Loki's success status), and the
+// status reported to out is the one the request got.
+//
+// Suicide: the timestamp / message nodes are deleted from the message before the rest is
+// encoded.  The messages are private copies (see out's callback below), so this does not
+// touch the batch's events.
+
+//@ func (*Plugin).send
+//@   preserves *Root
+//@   ghost ndig int = 0
+//@   ghost nts int = 0
+//@   ghost nmf int = 0
+//@   ghost lastts bool = false
+//@   ghost tslen int = 0
+//@   ghost nenc int = 0
+//@   ghost gbad bool = false
+//@   ghost nmar int = 0
+//@   ghost merr bool = false
+//@   ghost mref int = 0
+//@   ghost moff int = 0
+//@   ghost mlen int = 0
+//@   ghost nsend int = 0
+//@   ghost gcode int = 0
+//@   requires root != nil
+//@   ensures isnil(result1) ==> nsend == 1 && gcode == 204 && result0 == 204
+//@   ensures nsend == 1 && gcode == 204 ==> isnil(result1)
+//@   ensures nsend == 1 ==> result0 == gcode
+//@   ensures nsend == 0 ==> result0 != 400
+//@   loop 1 invariant -1 <= rangeindex && rangeindex < len(messages) && nenc == rangeindex + 1 && len(values) == rangeindex + 1
+//@   loop 1 invariant nts >= rangeindex + 1 && nmf >= rangeindex + 1
+//@   loop 1 invariant ndig == 1 && !gbad && nmar == 0 && nsend == 0
+//@   assert at "json.Marshal(" len(output.Streams) == 1 && output.Streams[0].StreamLabels == p.labels
+//@   assert at "json.Marshal(" sameblock(output.Streams[0].Values, values) && off(output.Streams[0].Values) == off(values) && len(output.Streams[0].Values) == len(messages)
+//@   callee Dig(path) (n)
+//@     requires len(path) == 1
+//@     requires ndig == 0 ==> recv == root.Node && path[0] == "data"
+//@     requires ndig > 0 ==> 0 <= rangeindex && recv == messages[rangeindex] && (path[0] == p.config.TimestampField || path[0] == p.config.MessageField)
+//@     pure
+//@     set ndig := 1
+//@     set nts := nts + ite(ndig > 0 && path[0] == p.config.TimestampField, 1, 0)
+//@     set nmf := nmf + ite(ndig > 0 && path[0] == p.config.MessageField, 1, 0)
+//@     set lastts := ndig > 0 && path[0] == p.config.TimestampField
+//@   callee AsArray() (a)
+//@     pure
+//@   callee AsString() (str)
+//@     pure
+//@     set tslen := ite(lastts, len(str), tslen)
+//@   callee Suicide()
+//@     pure
+//@   callee Sprintf(f, a) (str)
+//@     requires lastts && tslen == 0
+//@     pure
+//@   callee isUnixNanoFormat(s) (ok)
+//@     requires lastts && len(s) == tslen && tslen > 0
+//@     set gbad := gbad || !ok
+//@   callee EncodeToString() (str)
+//@     requires 0 <= rangeindex && recv == messages[rangeindex] && nenc == rangeindex
+//@     pure
+//@     set nenc := nenc + 1
+//@   callee Marshal(v) (r, e)
+//@     requires nmar == 0 && !gbad
+//@     pure
+//@     set nmar := nmar + 1
+//@     set merr := !isnil(e)
+//@     set mref := ref(r)
+//@     set moff := off(r)
+//@     set mlen := len(r)
+//@   callee DoTimeout(method, ct, body, timeout, fn) (code, err)
+//@     requires nsend == 0 && nmar == 1 && !merr && !gbad
+//@     requires ref(body) == mref && off(body) == moff && len(body) == mlen
+//@     requires method == "POST" && ct == "application/json"
+//@     pure
+//@     set nsend := nsend + 1
+//@     set gcode := code
+//@   callee Debug(m, f)
+//@     pure
+
+// out and its ForEach callback (C19): the callback adds exactly one element to the
+// "data" array of the envelope root and fills that very element with a private copy of
+// the event (decoded into the envelope's own root from the event's encoding: nothing
+// added twice, nothing left empty, nothing filled from elsewhere).  The element must
+// not share nodes with the event (MutateToNode re-parents the event's children and
+// send then cuts fields off them: the batch's events would be damaged for the retry
+// and for the dead queue - repaired defect, guard clause `requires false`).
+// out puts the array under the key send reads ("data") in a root spawned by this call,
+// walks the batch handed in exactly once (Batch.ForEach's own contract: the callback
+// runs for exactly the deliverable events, in order), calls send exactly once, on that
+// root, after the walk, and releases the root only after send.
+//
+// Result: an accepted push is reported as success (a resend would duplicate it); a
+// failed one is reported as success only for a 400 answer (upstream's "non-retryable",
+// the mapping that is an OPEN finding for Elasticsearch under C09) - clause 2, which
+// holds - and for nothing else - clause 4 (kept last: a failed clause is assumed
+// afterwards).  Clause 4 is EXPECTED TO FAIL at `return nil` behind
+// errors.Is(err, errUnixNanoFormat): that is the open finding recorded in
+// /verif/known_findings.json (one bad timestamp: no request at all, whole batch
+// committed) - it is stated, not excused.
+// (ForEach and send leave the variable holding the root pointer alone: `preserves
+// *Root`, by reading for ForEach - listed - and checked for send.)
+
+//@ func (*Plugin).out$1
+//@   ghost nadd int = 0
+//@   ghost nmut int = 0
+//@   ghost aref int = 0
+//@   ghost aoff int = 0
+//@   ensures nadd == 1 && nmut == 1
+//@   callee AddElementNoAlloc(r) (n)
+//@     requires recv == dataArr && r == root && nadd == 0
+//@     pure
+//@     set nadd := nadd + 1
+//@     set aref := ref(n)
+//@     set aoff := off(n)
+//@   ghost nenc int = 0
+//@   callee EncodeToString() (str)
+//@     requires recv == event.Root.Node && nenc == 0
+//@     pure
+//@     set nenc := nenc + 1
+//@   callee MutateToJSON(r, str) (n)
+//@     requires nadd == 1 && nmut == 0 && nenc == 1 && ref(recv) == aref && off(recv) == aoff
+//@     requires r == root
+//@     pure
+//@     set nmut := nmut + 1
+//@   callee MutateToNode(x) (n)
+//@     requires false
+
+//@ func (*Plugin).out
+//@   option allow-exit yes
+//@   ghost nfe int = 0
+//@   ghost nsc int = 0
+//@   ghost sref int = 0
+//@   ghost bref int
+//@   ghost gcode int = 0
+//@   ghost gerr bool = false
+//@   ghost gis bool = false
+//@   requires bref == ref(batch)
+//@   requires p.config.BatchSize_ >= 0 && p.config.BatchSize_ * p.avgEventSize >= 0
+//@   requires workerData != nil && (isnil(*workerData) || typeis(*workerData, "*github.com/ozontech/file.d/plugin/output/loki.data"))
+//@   ensures nfe == 1 && nsc == 1
+//@   ensures isnil(result) && gerr && !gis ==> gcode == 400
+//@   ensures !gerr ==> isnil(result)
+//@   ensures isnil(result) ==> !gerr || gcode == 400
+//@   callee Spawn() (r)
+//@     pure
+//@     set sref := ref(r)
+//@   callee Release(r)
+//@     requires ref(r) == sref && nsc == 1
+//@     pure
+//@   callee AddFieldNoAlloc(r, name) (n)
+//@     requires ref(r) == sref && ref(recv) == ref(r.Node) && name == "data" && nfe == 0
+//@     pure
+//@   callee MutateToArray() (n)
+//@     requires nfe == 0
+//@     pure
+//@   callee ForEach(cb)
+//@     requires ref(recv) == bref && nfe == 0 && nsc == 0
+//@     preserves *Root
+//@     set nfe := nfe + 1
+//@   callee send(r) (code, err)
+//@     requires nfe == 1 && nsc == 0 && ref(r) == sref
+//@     set nsc := nsc + 1
+//@     set gcode := code
+//@     set gerr := !isnil(err)
+//@   callee Is(e, target) (r)
+//@     requires target == errUnixNanoFormat
+//@     pure
+//@     set gis := r
+//@   callee WithLabelValues(l)
+//@     pure
+//@   callee Inc()
+//@     pure
+//@   callee Error(m, f)
+//@     pure
+//@   callee Debug(m, f)
+//@     pure
